@@ -60,6 +60,8 @@ partial def valOfJ : J → Option Val
   | .null => some (.leaf .none)
   | .int z => some (.leaf (.int z))
   | .obj [("s", s)] => (strOfJ s).map (fun x => .leaf (.str x))
+  | .obj [("m", _)] => some (.leaf .missing)
+  | .obj [("b", .bool b)] => some (.leaf (.bool b))
   | .obj [("d", .arr kvs)] => do
     let items ← kvs.mapM fun kv =>
       match kv with
@@ -78,6 +80,8 @@ partial def valToJ : Val → J
   | .leaf .none => .null
   | .leaf (.int z) => .int z
   | .leaf (.str s) => .obj [("s", strToJ s)]
+  | .leaf .missing => .obj [("m", .bool true)]
+  | .leaf (.bool b) => .obj [("b", .bool b)]
   | .dict items => .obj [("d", .arr (items.map fun kv => .arr [keyToJ kv.1, valToJ kv.2]))]
   | .list items => .obj [("l", .arr (items.map valToJ))]
 
@@ -206,6 +210,23 @@ def handle (j : J) : J :=
             ("canon_flat_t", exceptJ valToJ (Val.canonicalize dc flatT)),
             ("canon_flat_f", exceptJ valToJ (Val.canonicalize dc flatF))]
     | none => bad "hier"
+  | some "look" =>
+    match (j.get? "v").bind valOfJ, (j.getArr? "probes").bind (·.mapM pathOfJ) with
+    | some v, some probes =>
+      let pre := Val.visitsPre v []
+      .obj [("pre", .arr (pre.map fun pv => pathToJ pv.1)),
+            ("visited", .arr (pre.map fun pv =>
+                -- exists / get for every reported path: present, and the node itself
+                match Val.existsM v pv.1, Val.getM v pv.1 with
+                | .ok true, .ok (some r) => if r == pv.2 then J.str "present" else J.str "other-node"
+                | .ok false, _ => J.str "absent"
+                | .error e, _ => J.str e.name
+                | _, _ => J.str "inconsistent")),
+            ("probes", .arr (probes.map fun p =>
+                match Val.existsM v p with
+                | .ok b => J.bool b
+                | .error e => J.str e.name))]
+    | _, _ => bad "look"
   | some "query" =>
     match (j.get? "v").bind valOfJ, (j.get? "p").bind pathOfJ with
     | some v, some p => .obj [("r", exceptJ valToJ (Val.query v p))]
